@@ -233,11 +233,18 @@ Next ==
       CASE e.e = "reset" ->
              /\ sc' = e.sc /\ cfg' = e.cfg /\ conns' = EmptyFn /\ ms' = EmptyFn /\ div' = FALSE /\ o' = ObsInit
         [] e.e = "open" ->
-             /\ conns' = Put(conns, e.c, [addr |-> e.addr, k |-> Admit(cfg, e.addr), closed |-> FALSE])
+             /\ conns' = Put(conns, e.c, [addr |-> e.addr, k |-> Admit(cfg, e.addr), closed |-> FALSE,
+                                          names |-> IF "names" \in DOMAIN e THEN e.names ELSE <<>>])
              /\ o' = [o EXCEPT !.iso = IF "iso" \in DOMAIN e THEN @ \cup {[c |-> e.c, of |-> e.of, sid |-> e.sid]} ELSE @]
              /\ UNCHANGED << sc, cfg, ms, div >>
         [] e.e = "lookup" ->
-             /\ LET new == LookupTags(e, conns[e.c].addr) IN o' = [o EXCEPT !.bad = @ \cup new] /\ Report(new \ o.bad, e)
+             \* configurations with a DNS secret provider are growth beyond the listed properties: the lookup is compared
+             \* with Admission!AdmitNamed on the names the resolver gave (divergence only)
+             /\ LET new == IF HasDns(cfg) THEN {} ELSE LookupTags(e, conns[e.c].addr) IN o' = [o EXCEPT !.bad = @ \cup new] /\ Report(new \ o.bad, e)
+             /\ (IF ~HasDns(cfg) THEN TRUE
+                 ELSE LET k == AdmitNamed(cfg, conns[e.c].addr, conns[e.c].names) IN
+                      IF (k = 0 /\ ~e.ok) \/ (k > 0 /\ e.ok /\ e.key = cfg.secrets[k].key) THEN TRUE
+                      ELSE PrintT(<< "DIV", sc, l, "dns: lookup differs from Admission!AdmitNamed" >>))
              \* from here on the connection is judged against the configuration whose key the server really uses
              \* (in the unambiguous case that is the oracle's, or the lookup above is already a violation)
              /\ LET ks == { k \in 1..Len(cfg.secrets) : cfg.secrets[k].key = e.key } IN
